@@ -362,3 +362,81 @@ def part_c18_fields(chk, tier, jobs, oracle):
     else:
         chk.validated += len(probes)
         chk.log('common fields: `value.` completion on %d probe types offers exactly the fields every constructor has' % len(probes))
+
+
+# ------------------------------------------------------------------------------------------------ C05: qualified type names
+class QualifiedTypeSpec:
+    """def::semantics::classify_type_name under-constrained.  "qualified ... imports reach the exporting module": a type name written
+    `module.Type` must be looked up in that module.  Obligation: a path whose answer comes from the UNQUALIFIED lookup
+    (Semantics::resolve_type, the current module's own type scope) must first have established that the name is not qualified or that the
+    qualified lookup found nothing - i.e. one of the steps of the qualified lookup returned None on that path."""
+
+    def make_interp(self):
+        it = W.interp('ide', uc=True)
+        it.allow = [r'^def::semantics::classify_type_name$', r'^def::semantics::classify_type_name::\{closure#\d+\}$']
+        return it
+
+    def run_path(self, it):
+        from .c08 import derives_from
+        b = W.crates['ide']['def::semantics::classify_type_name']
+        r = it.run_body(b, [LazyV('sema'), LazyV('type_name')])
+        var, pay = models.shape(it, r, ['None', 'Some'])
+        if var != 'Some':
+            return {'cls': 'unresolved', 'ok': True}
+        calls = it.trace
+        unq = [i for i, t in enumerate(calls) if t[0].split('(')[0].endswith('Semantics::<\'_>::resolve_type') or re.search(r'Semantics(::<[^>]*>)?::resolve_type$', t[0])]
+        from_unq = [i for i in unq if derives_from(pay, calls[i][2], calls)]
+        if not from_unq:
+            return {'cls': 'resolved:qualified-or-import' + (':unq-called' if unq else ''), 'ok': True, 'sample': {'answer': 'qualified lookup / import', 'trace': [t[0][-60:] for t in calls][-8:]}}
+        i = from_unq[0]
+        steps = [t for t in calls[:i] if re.search(r'TypeNameRef as .*AstNode>::cast$|TypeNameRef::module$|::text$|Semantics(::<[^>]*>)?::analyze$|Resolver::resolve_module$|Resolver::resolve_type$|Into<std::option::Option<[^=]*>::into$', t[0])]
+        none_seen = False
+        for t in steps:
+            res = t[2]
+            if isinstance(res, LazyV):
+                rr, _ = it.check(res.discriminant() != 0)
+                if rr != z3.sat:
+                    none_seen = True; break
+        if none_seen:
+            return {'cls': 'resolved:unqualified-after-failed-qualified', 'ok': True, 'sample': {'answer': 'own type scope, after the qualified lookup gave nothing'}}
+        return {'cls': 'violation', 'ok': False, 'cex': {'fn': 'classify_type_name'},
+                'why': ['C05: classify_type_name answers from the current module\'s own type scope without having established that the name is unqualified (or that `module.Type` found nothing): '
+                        'a qualified type name `m.T` lands on a local / imported type T of the same name']}
+
+    def on_panic(self, it, e):
+        return {'cls': 'panic-under-havoc', 'ok': True}
+
+
+def qualified_factory():
+    return QualifiedTypeSpec()
+
+
+def native_qualified_type(oracle):
+    files = [{'path': '/app/src/main.gleam', 'text': 'import shapes\ntype Wobble { Square }\nfn bla(a: shapes.Wobble, b: Wobble) { a }\n', 'root': 0},
+             {'path': '/app/src/shapes.gleam', 'text': 'pub type Wobble { Round }\n', 'root': 0}]
+    app = files[0]['text']
+    req = {'files': files, 'roots': [{'path': '/app', 'local': True, 'deps': []}], 'file': 0, 'offsets': [app.index('shapes.Wobble') + 7, app.index('b: Wobble') + 3]}
+    r = oracle.ask('goto', json.dumps(req))
+    g = r.get('goto') if isinstance(r, dict) else None
+    okq = bool(g) and bool(g[0]) and g[0][0][0] == 1
+    oku = bool(g) and bool(g[1]) and g[1][0][0] == 0
+    return okq and oku, g if g is not None else r
+
+
+def part_c05_types(chk, tier, jobs, oracle):
+    from mirsym import explore
+    res, complete = explore.explore(qualified_factory, (), jobs=1)
+    chk.add_run('classify_type_name (under-constrained): the own type scope answers only after the qualified lookup gave nothing', res, complete, {}, nontrivial_classes=lambda c: c.startswith('resolved'))
+    okn, g = native_qualified_type(oracle)
+    if res.violations:
+        why = res.violations[0]['why'][0]
+        if not okn:
+            chk.violation('classify:qualified-type', 'bounded', '%s; public API: `shapes.Wobble` next to a local `type Wobble` -> go-to-definition targets %s (file 1 = shapes.gleam expected for the qualified name, file 0 for the plain one)' % (why[:400], g),
+                          {'program': 'import shapes / type Wobble / fn bla(a: shapes.Wobble, b: Wobble)'}, confirmed=True)
+        else:
+            chk.inconclusive.append('classify_type_name kernel: %s -- but the qualified / unqualified probe resolves as expected (%s)' % (why[:300], g))
+    elif not okn:
+        chk.inconclusive.append('translator validation FAILED: classify_type_name kernel finds no problem; go-to-definition on `shapes.Wobble` / `Wobble`: %s' % (g,))
+    else:
+        chk.validated += 2
+        chk.log('qualified type names: `shapes.Wobble` reaches shapes.gleam and `Wobble` the local type through goto_definition')
